@@ -14,7 +14,11 @@ use std::sync::atomic::{AtomicBool, AtomicU64, Ordering};
 use std::sync::Mutex;
 use std::time::Instant;
 
-pub const VERIF_ROOT: &str = "/verif";
+/// Root of the verification tree (evidence, replays, known findings). `VERIF_ROOT` in the
+/// environment overrides it (used by scratch worktrees of /verif).
+pub fn verif_root() -> String {
+    std::env::var("VERIF_ROOT").unwrap_or_else(|_| "/verif".to_string())
+}
 pub const SHARDS: u64 = 16;
 
 #[derive(Clone, Copy, PartialEq, Eq, Debug)]
@@ -144,17 +148,31 @@ pub fn fnv(s: &[u8]) -> u64 {
 }
 
 pub fn load_known() -> Vec<KnownFinding> {
-    let p = format!("{}/known_findings.json", VERIF_ROOT);
-    match std::fs::read_to_string(&p) {
-        Ok(s) => match serde_json::from_str::<Vec<KnownFinding>>(&s) {
-            Ok(v) => v,
-            Err(e) => {
-                eprintln!("HARNESS-ERROR: cannot parse {}: {}", p, e);
-                std::process::exit(2);
-            }
-        },
-        Err(_) => Vec::new(),
+    let mut files = vec![format!("{}/known_findings.json", verif_root())];
+    // per-property fragments (merged into known_findings.json when work is integrated)
+    if let Ok(rd) = std::fs::read_dir(format!("{}/known_findings.d", verif_root())) {
+        let mut extra: Vec<String> = rd
+            .flatten()
+            .map(|e| e.path().to_string_lossy().to_string())
+            .filter(|p| p.ends_with(".json"))
+            .collect();
+        extra.sort();
+        files.extend(extra);
     }
+    let mut out = Vec::new();
+    for p in files {
+        match std::fs::read_to_string(&p) {
+            Ok(s) => match serde_json::from_str::<Vec<KnownFinding>>(&s) {
+                Ok(v) => out.extend(v),
+                Err(e) => {
+                    eprintln!("HARNESS-ERROR: cannot parse {}: {}", p, e);
+                    std::process::exit(2);
+                }
+            },
+            Err(_) => {}
+        }
+    }
+    out
 }
 
 impl Ctx {
@@ -270,7 +288,7 @@ impl Ctx {
         });
         let text = serde_json::to_string_pretty(&body).unwrap();
         let h = fnv(format!("{}|{}|{}", sub, key, serde_json::to_string(&body["case"]).unwrap()).as_bytes());
-        let dir = format!("{}/replays/found", VERIF_ROOT);
+        let dir = format!("{}/replays/found", verif_root());
         let _ = std::fs::create_dir_all(&dir);
         let path = format!("{}/{}-{}-{:016x}.json", dir, self.id, sub, h);
         let _ = std::fs::write(&path, text);
@@ -538,7 +556,7 @@ where
 pub fn run_witnesses(ctx: &Ctx, subs: &[Box<dyn DynSub>], extra_replay: &dyn Fn(&Ctx, &str, &Value) -> Option<Verdict>) {
     for k in ctx.known.iter() {
         let Some(w) = &k.witness else { continue };
-        let path = format!("{}/{}", VERIF_ROOT, w);
+        let path = format!("{}/{}", verif_root(), w);
         let Ok(text) = std::fs::read_to_string(&path) else {
             eprintln!("HARNESS-ERROR: witness {} missing", path);
             std::process::exit(2);
@@ -625,7 +643,7 @@ pub fn finish(ctx: &Ctx) -> i32 {
         "wall_s": ctx.started.elapsed().as_secs_f64(),
         "violations": viols.len(),
     });
-    let dir = format!("{}/evidence", VERIF_ROOT);
+    let dir = format!("{}/evidence", verif_root());
     let _ = std::fs::create_dir_all(&dir);
     let path = format!("{}/{}.json", dir, ctx.id);
     if let Err(e) = std::fs::write(&path, serde_json::to_string_pretty(&ev).unwrap()) {
